@@ -30,15 +30,33 @@ func vhC14Env(locTimeoutMs, defTimeoutMs int64) *vhEnv {
 }
 
 // VH_C14_run: family 0 value, 1 throw, 2 loop, 3 slow; locCfg 0: location timeout 0 (system
-// default applies), 1: location timeout set.
+// default applies), 1: location timeout set, 2: negative location timeout (none for this
+// location), 3: negative system default, 4: timeouts switched off.
 func VH_C14_run(family, locCfg int) {
 	vrealclock() // native replay: real otto, real timers, real sleeps
 	def := int64(vsymInt("defaultTimeoutMs", 1, 100))
 	loc := int64(0)
-	if locCfg == 1 {
+	unlimited := false
+	switch locCfg {
+	case 1:
 		loc = int64(vsymInt("locTimeoutMs", 1, 100))
+	case 2: // negative location timeout: no timeout for this location
+		loc = int64(vsymInt("locTimeoutMs", -100, -1))
+		unlimited = true
+	case 3: // negative system default, nothing set on the location
+		def = int64(vsymInt("negDefaultTimeoutMs", -100, -1))
+		unlimited = true
+	case 4: // timeouts switched off system-wide
+		loc = int64(vsymInt("locTimeoutMs", 0, 100))
+		unlimited = true
+	}
+	if unlimited {
+		vassume(family != 2) // a non-terminating script then hangs by design
 	}
 	env := vhC14Env(loc, def)
+	if locCfg == 4 {
+		SystemParameters.JavascriptTimeouts = false
+	}
 	selected := def
 	if loc != 0 {
 		selected = loc
@@ -48,7 +66,12 @@ func VH_C14_run(family, locCfg int) {
 	slow := int64(0)
 	if family == 3 {
 		slow = int64(vsymInt("slowMs", 1, 200))
-		vassume(slow != selected) // the exact tie is a race between two timers
+		vassume(unlimited || slow != selected) // the exact tie is a race between two timers
+		if unlimited && def > 0 {
+			// keep clear of the (unused) system default so that a witness replays
+			// natively without a timer race
+			vassume(slow+20 <= def || slow >= def+20)
+		}
 		bs["SLOW"] = float64(slow * vhMs)
 		vottoSlow(slow * vhMs)
 	}
@@ -67,7 +90,7 @@ func VH_C14_run(family, locCfg int) {
 		vassert(rerr != nil, "halted-script-is-reported-as-error")
 		vassert(elapsed >= selected*vhMs, "not-halted-before-the-selected-timeout")
 	case 3:
-		if slow < selected {
+		if unlimited || slow < selected {
 			vassert(rerr == nil && x != nil, "script-within-limit-unaffected")
 		} else {
 			vassert(rerr != nil, "halted-script-is-reported-as-error")
